@@ -37,7 +37,18 @@ pub open spec fn seg_post<Old: Index<usize> + ?Sized, New: Index<usize> + ?Sized
 {
     is_ok ==> exists|s: Seq<Ev>| #[trigger] seg(old, new, s, or.start as int, nr.start as int, or.end as int, nr.end as int)
         && d1.trace() == d0.trace() + s + tail
-        && (d0.relies() ==> d1.rely_st() == run_rel(d0.rely_rel(), d0.rely_st(), s))
+        && (d0.relies() ==> d1.rely_st() == run_rel(d0.rely_rel(), d0.rely_st(), s + tail))
+}
+
+pub proof fn lemma_run_fin<D: DiffHook>(rel: Rel, st: St, s: Seq<Ev>)
+  ensures run_rel(rel, st, s + fin::<D>()) == (if D::observes_finish() { step_rel(rel, run_rel(rel, st, s), Ev::Finish) } else { run_rel(rel, st, s) })
+{
+    if D::observes_finish() {
+        assert(s + fin::<D>() =~= s.push(Ev::Finish));
+        lemma_run_push(rel, st, s, Ev::Finish);
+    } else {
+        assert(s + fin::<D>() =~= s);
+    }
 }
 
 /// the running invariant of an algorithm body: the hook has received the segment `s` so far
